@@ -592,6 +592,18 @@ pub fn c06(r: &mut Rng, t: u32, n: usize) -> Vec<Value> {
                 if !s.contains('e') { s.push(if r.bool() { 'e' } else { 'E' }); match r.below(3) { 0 => s.push('+'), 1 => s.push('-'), _ => {} } for _ in 0..r.below(5) { { let b = if r.bool() { 10 } else { 2 }; s.push((b'0' + r.below(b) as u8) as char); } } }
                 s
             }
+            7 if r.bool() => {
+                // digit runs of chunk-relevant lengths with ONE foreign byte at any position: bytes adjacent to '0'..'9' in
+                // ASCII ('/', ':'), bytes that look like digits in the low nibble ('@' 0x40, 'p' 0x70, 'P'), grammar characters
+                let l = *r.pick(&[7usize, 8, 9, 15, 16, 17, 24, 30]) + r.below(2) as usize;
+                let mut b: Vec<u8> = (0..l).map(|_| b'0' + r.below(10) as u8).collect();
+                if b[0] == b'0' { b[0] = b'1'; }
+                let k = r.below(l as u64) as usize;
+                let foreign: &[u8] = b"/:@pP`. eE+-_\x7f!";
+                b[k] = *r.pick(foreign);
+                if r.below(4) == 0 { b.insert(r.below(l as u64) as usize, b'.'); }
+                String::from_utf8(b).unwrap()
+            }
             8 if r.bool() => {
                 // long fraction compensated by a long exponent: value = digits * 10^(e - z - len)
                 let z = if r.bool() { r.below(130) } else { 130 + r.below(1100) };
@@ -851,6 +863,21 @@ pub fn c16(r: &mut Rng, t: u32, n: usize) -> Vec<Value> {
             6 => MAXC - r.below(10) as i128,
             _ => ((r.u128() >> (1 + r.below(126))) as i128).max(1),
         };
+        if r.below(6) == 0 {
+            // half-word patterns: every combination of {0, 1, 2^63, 2^64-1, random} in the four 64-bit halves of a and b
+            // (carries between the partial products), divisors around 2^32 / 2^64
+            let hw = |r: &mut Rng| -> u128 { match r.below(5) { 0 => 0, 1 => 1, 2 => 1 << 63, 3 => (1 << 64) - 1, _ => r.next() as u128 } };
+            let a = (((hw(r) >> 1) << 64) | hw(r)) as i128;
+            let b = (((hw(r) >> 1) << 64) | hw(r)) as i128;
+            let mm = match r.below(5) { 0 => (1i128 << 32) + r.range(-1, 1) as i128, 1 => (1i128 << 64) + r.range(-1, 1) as i128, 2 => (1i128 << 63) + r.range(-1, 1) as i128, 3 => r.below(10) as i128 + 1, _ => (r.next() >> r.below(63)) as i128 + 1 };
+            let (a, b) = sign2(r, a, b);
+            if r.bool() {
+                v.push(json!({"ev": "wide", "t": t, "op": "i256_div_mod_floor", "a": num(a), "b": num(b), "k": 0, "m": num(mm), "mode": mode}));
+            } else {
+                v.push(json!({"ev": "wide", "t": t, "op": "i128_mul_div_ten_pow_rounded", "a": num(a), "b": num(b), "k": r.below(39), "m": num(1), "mode": mode}));
+            }
+            continue;
+        }
         if r.below(4) == 0 {
             // Knuth-D adversarial operands: quotient digit estimates too large, partial remainder on the 2^64 boundary
             if r.bool() {
